@@ -426,6 +426,7 @@ func (c *c02Ctx) faults(s c02State, thorough, pairs bool) []c02Fault {
 
 func C02(args []string) {
 	r := core.Begin("C02", "model_checking", args)
+	r.WatchProgress(watchPeriod()) // the code under test runs in this process: a call that never returns must end the check
 	scns := c02Scenarios()
 	if p := replayArg(args); p != "" {
 		var f struct {
